@@ -36,3 +36,6 @@ class ModifiedZorgNotesEvent(Event):
     zettel_dir: Path
     zorg_page_path: Path
     modified_notes: list[Note]
+    # Set when another event will rewrite the same page afterwards (i.e. new
+    # notes on that page still have to receive their ZIDs).
+    more_rewrites_pending: bool = False
